@@ -66,6 +66,8 @@ func runC18(b *mon.B) {
 	secretTok := "SECRET" + r.Alnum(18)
 	sc.Scopes[0].Key = secretTok
 	sc.Cfg.Secrets[0].Secret.Key = secretTok
+	// a prefix list with entries the CIDR parser rejects next to the valid one
+	sc.Cfg.Secrets[0].Options = map[string]string{"prefixes": `["10.0.0.0/16", "2001:db8::/129", "not-a-prefix", ""]`}
 	nTokUsers := b.N(10, 40)
 	tokUsers := make([]string, nTokUsers)
 	tokPw := map[string]string{}
@@ -122,7 +124,10 @@ func runC18(b *mon.B) {
 	// loading phase
 	search("configuration-load", map[string]string{"shared-secret": secretTok}, ref.Log.Reset(), stock.take(), "load")
 
+	failWriteAt := -1 // index of the packet whose reply write is made to fail (-1: none)
 	runSession := func(label, class string, pw string, pkts []pktPlan, useKey []byte) {
+		failAt := failWriteAt
+		failWriteAt = -1
 		caseNo++
 		if !b.Want(caseNo) {
 			return
@@ -136,6 +141,9 @@ func runC18(b *mon.B) {
 			h := rfc8907.Header{Major: 0xc, Minor: p.Minor, Type: p.Type, Seq: 1 + 2*i, Flags: p.Flags, Session: sid}
 			if p.SeqOverride != 0 {
 				h.Seq = p.SeqOverride
+			}
+			if i == failAt {
+				rc.c.FailNextWrites(fmt.Errorf("write: connection reset by peer"))
 			}
 			res := rc.send(h, p.Body, true)
 			if res.Err != nil {
@@ -209,8 +217,19 @@ func runC18(b *mon.B) {
 		if right {
 			pw = real
 		}
-		flow := r.Intn(12)
+		flow := r.Intn(13)
 		switch flow {
+		case 12:
+			// the write of the final reply fails (the peer reset the connection)
+			if r.Bool() {
+				rcp := papLogin(user, pw, 1)
+				failWriteAt = 0
+				runSession("pap-final-reply-write-fails", "pap-final-reply-write-fails/"+kind, pw, rcp.Pkts, key)
+			} else {
+				rcp := asciiLogin(user, true, pw, 0)
+				failWriteAt = 1
+				runSession("ascii-final-reply-write-fails", "ascii-final-reply-write-fails/"+kind, pw, rcp.Pkts, key)
+			}
 		case 9:
 			// a password with an octet above 0x7f (latin-1 umlaut): the CONTINUE is laid out by
 			// hand, the server's decoder refuses it
